@@ -456,6 +456,7 @@ class SiteTracer(Tracer):
                                 self.site("arith", e, op, [lv, r])
                             r = self.arith(op, lv, r)
                         env[tgt["name"]] = r
+                        self.assign_sites.append((nm_, r, list(self.loops), list(self.guards)))
                         continue
                     self.eval(e, env)
                     pushed += self._flushed()
